@@ -263,6 +263,15 @@ def blank_creator(cls, conn, id_spec="ID", merge_strategy="error", counters=None
     d.update(fields)
     for k, v in d.items():
         object.__setattr__(c, k, v)
+    # an importer with an ARBITRARY HISTORY: integer bookkeeping the real __init__ starts at a constant (a count of rows
+    # written, of lines seen, ...) is an arbitrary non-negative integer here, so that behaviour that only shows from the
+    # n-th call on is on some path.  (The logger level saved by __init__ is configuration, not history.)
+    if Ctx.current is not None:
+        for k, v in list(vars(c).items()):
+            if type(v) is int and k not in d and k not in ("_orig_logger_level",):
+                h = z3.Int("hist.%s" % k)
+                Ctx.current.assume(h >= 0)
+                object.__setattr__(c, k, SInt(h))
     return c
 
 
